@@ -38,21 +38,25 @@ pub fn determinism(n_seeds: usize) -> ! {
         }
     }
     let t = Duration::from_secs(300);
-    println!("selftest determinism: {} sessions x 2 processes at parallelism 16 and 4, first {} also at parallelism 1", sessions.len(), sessions.len().min(100));
+    println!("selftest determinism: {} sessions x 2 processes at parallelism 16 and 4, first {} also at parallelism 1 and through the exec path", sessions.len(), sessions.len().min(100));
     let a: Vec<String> = driver::run_all(&sessions, 16, t, |_, _| {}).iter().map(fingerprint).collect();
     let b: Vec<String> = driver::run_all(&sessions, 4, t, |_, _| {}).iter().map(fingerprint).collect();
     let head = &sessions[..sessions.len().min(100)];
     let c: Vec<String> = driver::run_all(head, 1, t, |_, _| {}).iter().map(fingerprint).collect();
+    // and through the exec path (no fork server): a session must not care how its process came to be
+    unsafe { std::env::set_var("VRL_SIM_NO_ZYGOTE", "1") };
+    let d: Vec<String> = driver::run_all(head, 8, t, |_, _| {}).iter().map(fingerprint).collect();
+    unsafe { std::env::remove_var("VRL_SIM_NO_ZYGOTE") };
     let mut mismatches = 0;
     for i in 0..sessions.len() {
         let mut bad = a[i] != b[i];
-        if i < c.len() && a[i] != c[i] {
+        if i < c.len() && (a[i] != c[i] || a[i] != d[i]) {
             bad = true;
         }
         if bad {
             mismatches += 1;
             if mismatches <= 5 {
-                let (x, y) = if a[i] != b[i] { (&a[i], &b[i]) } else { (&a[i], &c[i]) };
+                let (x, y) = if a[i] != b[i] { (&a[i], &b[i]) } else if a[i] != c[i] { (&a[i], &c[i]) } else { (&a[i], &d[i]) };
                 let pos = x.bytes().zip(y.bytes()).position(|(p, q)| p != q).unwrap_or(x.len().min(y.len()));
                 let lo = pos.saturating_sub(200);
                 println!("MISMATCH session {i} ({}) at byte {pos}:\n  A: …{}\n  B: …{}", sessions[i].worlds[0].id, &x[lo..(pos + 200).min(x.len())], &y[lo..(pos + 200).min(y.len())]);
